@@ -1,6 +1,6 @@
 """C02 — results are the actions evaluated over the derivation tree, once per node, in post-order."""
 import time
-import vlib, gram, lrengine, lrcheck
+import vlib, gram, lrengine, lrcheck, cgb, cgcheck
 
 PROP = "C02"
 
@@ -71,9 +71,53 @@ def run(tier):
             cases.append((e["tid"], lrengine.tok_items(g, e["t"], w, r), [], {}))
     dec, nbad = lrcheck.correspond(PROP, rep, c, cases, make_judge(c), "c02")
     lrcheck.report_cert_failures(PROP, rep, c, failing, bool(rep.viol), make_judge(c), r)
+    # compiled tier: what the action *receives* when it is written with `<>` (named bindings in
+    # non-alphabetical order, anonymous selections): children left to right
+    fg = [gram.with_forms(g, r) for g in gs if not g.recovery][: (14 if tier == "quick" else 80)]
+    lal = vlib.build_lalrpop()
+    okb, outb, binary, units = cgcheck.build_corpus(rep, lal, fg, variants=("t",) if tier == "quick" else ("t", "a"))
+    ncomp = nbadc = 0
+    if not okb:
+        rep.violation("generated-code-does-not-compile", {"what": "rustc rejects a parser generated from a grammar whose actions use `<>`", "rustc": outb[-2500:]})
+        nbadc += 1
+    else:
+        ccases, cmeta = [], []
+        for u in units:
+            g = u["g"]
+            for st in g.pubs:
+                if st not in g.min_height():
+                    continue
+                for _ in range(8 if tier == "quick" else 20):
+                    w, tree = g.random_sentence(r, st, depth=r.randint(1, 6), with_tree=True)
+                    items = lrengine.tok_items(g, {"tnames": ['"%s"' % t for t in g.terms]}, w, r)
+                    ccases.append((u["name"], st, items, None, [])); cmeta.append((u, tree, w))
+        res = cgb.run(binary, ccases)
+
+        def shape(n):
+            if "leaf" in n:
+                return ("leaf", n["leaf"]["id"])
+            return (n.get("label"), [shape(k) for k in n.get("kids", [])])
+
+        def want(t, ids):
+            if isinstance(t, str):
+                return ("leaf", next(ids))
+            nt, i, kids = t
+            return ("%s#%d" % (nt, i), [want(k, ids) for k in kids])
+        for (u, tree, w), d in zip(cmeta, res):
+            ncomp += 1
+            if d["kind"] != "ok":
+                continue          # ambiguity-free sentence rejected: C01's business, reported there
+            exp = want(tree, iter(range(1, len(w) + 1)))
+            got = shape(d["tree"])
+            if got != exp:
+                nbadc += 1
+                if nbadc <= 3:
+                    rep.violation("action-receives-wrong-children", {"what": "an action written with `<>` did not receive the values of its production's symbols left to right",
+                                                                      "grammar": u["g"].name, "grammar_text": u["g"].render(ascent=(u["variant"] == "a")), "tokens": w,
+                                                                      "value": got, "expected": exp, "back_end": "recursive ascent" if u["variant"] == "a" else "table-driven"})
     oks = [d for d in dec if d["kind"] == "ok"]
     distinct = len({(x[0], tuple(i[1] for i in x[1])) for x, d in zip(cases, dec) if d["kind"] == "ok" and len(d["acts"]) >= 2})
-    cov = {"obligations": nobl + cobl + len(cases), "discharged": ndis + cdis + len(cases) - nbad,
+    cov = {"obligations": nobl + cobl + len(cases) + ncomp, "discharged": ndis + cdis + len(cases) - nbad + ncomp - nbadc,
            "checker_cmd": "make -C coq; coqc Props/C02.v; coqc .cache/cases/c02cert/*.v; coqc .cache/cases/c02/*.v",
            "trusted_base": vlib.TRUSTED_COMMON + ["tools/lrtab.py", "harness/src/bin/drv.rs (actions build the tree and log themselves)"],
            "theorems": names, "certificates": {"checked": cobl, "valid": cdis},
